@@ -22,6 +22,19 @@ func checkC01(c *core.Ctx) {
 	ruleUpdateVolumesUpsert(c)
 	ruleAccountsVolumesWriters(c)
 	ruleInputOutputLabels(c)
+	// "…and for volumes read at any point in time": the window/order structure of the PIT readers
+	// (C05) and of the effective-volumes trigger functions (C04) are necessary for conservation there
+	ruleTemporalClauses(c)
+	ruleEffectiveVolumesFunctions(c)
+}
+
+// checkSidesIndependent: the source-side and destination-side effects of one posting must not be
+// alternatives of each other (else / switch over the roles): with source == destination both apply.
+func checkSidesIndependent(c *core.Ctx, rule, key string, effs []Effect) {
+	for _, e := range effs {
+		c.Check(!e.Exclusive, rule, fmt.Sprintf("%s:independent:%s", key, e.Sig()), posOf(c, e.Pos),
+			"source and destination effects are independent tests", "the "+e.Role+" side of a posting is only applied when the test for the other side failed (else-branch or switch over the two roles): a posting whose source and destination are the same account updates one side only, so input and output totals drift apart")
+	}
 }
 
 // ruleVolumeUpdatesFlow: FLOW on (Transaction).VolumeUpdates.
@@ -42,6 +55,7 @@ func ruleVolumeUpdatesFlow(c *core.Ctx) {
 		c.Check(e.Accumulates, "FLOW/volume-updates", fmt.Sprintf("%s:accumulates:%s", key, e.Sig()), posOf(c, e.Pos),
 			"x.Add(x, amount)", "the accumulator is not the first operand of Add: the running total is overwritten instead of accumulated")
 	}
+	checkSidesIndependent(c, "FLOW/volume-updates", key, effs)
 	// The posting must be registered under its source and its destination; the only
 	// early exit from the registration loop is the source==destination duplicate.
 	var regLoop *ast.RangeStmt
